@@ -122,6 +122,127 @@ fn report_reject(ev: &mut Ev, src: &Source, packaging: &str, t: &Tables, c: &Cer
     );
 }
 
+/// Full-system tie: `lines` are evaluated one after the other as REPL lines (real Environment +
+/// Worker under the simulator); the merged program is certified (packaging `repl-merged`; a REPL
+/// continuation line is certified with the locals it starts with as its entry locals) and every
+/// process's trace is replayed against the annotations and through the Lean `stepInstr`.
+fn system_tie(cx: &mut Ctx, ev: &mut Ev, src: &Source, lines: &[String]) {
+    let run = match run_session_traced(lines, &cx.b, 1500) {
+        Err(why) => {
+            ev.hit(&format!("system-run:skipped:{}", why.split(':').next().unwrap_or("?")));
+            return;
+        }
+        Ok(run) => run,
+    };
+    ev.hit(&format!("system-run:{}", run.outcome.split(':').next().unwrap_or("?")));
+    ev.hit(&format!("system-run:lines={}", run.lines_run));
+    if run.unattributed > 0 {
+        ev.add("system-run:unattributed-segments", run.unattributed as u64);
+    }
+    // REPL line functions start with the session's variables as locals: certify them with that
+    // count as entry locals (sent to the model as `captures`; sound for a frame whose
+    // `captures_count` is never consulted, i.e. a function without `TailCall(true)`)
+    let mut program = run.program.clone();
+    let mut entry_locals: Vec<Option<usize>> = vec![];
+    for t in &run.repl_lines {
+        match t.first() {
+            Some(&(f, _, _, l)) => {
+                if l != program.functions[f].captures {
+                    if program.functions[f].instructions.iter().any(|i| matches!(i, Instruction::TailCall(true))) {
+                        ev.hit("system-run:skipped:repl-line-with-self-tailcall");
+                        return;
+                    }
+                    program.functions[f].captures = l;
+                    ev.hit("system-run:repl-continuation-line");
+                }
+                entry_locals.push(Some(l));
+            }
+            None => entry_locals.push(None),
+        }
+    }
+    let t = tables_of(&program);
+    let c = certify(&mut cx.model, &t);
+    ev.add("certified-functions:repl-merged", c.functions as u64);
+    cx.functions += c.functions as u64;
+    if c.reject.is_some() {
+        report_reject(ev, src, "repl-merged", &t, &c);
+        return;
+    }
+    let Some(anns) = parse_anns(&cx.model.ask("(annotations)")) else { return };
+    ev.add("system-run:processes", (run.traces.len() + 1) as u64);
+    let mut all: Vec<(String, &Trace, Option<usize>)> = vec![];
+    for (i, t) in run.repl_lines.iter().enumerate() {
+        all.push((format!("repl line {i}"), t, entry_locals[i]));
+    }
+    for (pid, t) in &run.traces {
+        all.push((format!("process {pid}"), t, None));
+    }
+    for (who, trace, el) in all {
+        if trace.is_empty() {
+            continue;
+        }
+        let tc = check_trace_from(&program.functions, &anns, trace, el);
+        cx.trace_points += tc.points as u64;
+        ev.add("trace-points:system", tc.points as u64);
+        ev.add("system-run:select-filter-calls", tc.select_filter_calls as u64);
+        for (f, pc, _, _) in trace.iter() {
+            if let Some(i) = program.functions.get(*f).and_then(|x| x.instructions.get(*pc)) {
+                if matches!(i, Instruction::Spawn | Instruction::Send | Instruction::Select | Instruction::Self_ | Instruction::Process(_, _)) {
+                    ev.hit(&format!("system-traced-op:{}", instr_token(i).split(':').next().unwrap()));
+                }
+            }
+        }
+        if let Some((k, what)) = &tc.mismatch {
+            let (f, pc, _, _) = trace[*k];
+            ev.violation(
+                "trace kind=shape-mismatch path=system",
+                &format!("full-system trace of {who} leaves the annotated shape in {}: {what}", src.origin),
+                json!({"broken": "correspondence M-VM/M-Check <-> executor (full system, per-process instruction trace)",
+                       "origin": src.origin, "source": src.text, "lines": lines, "who": who, "trace_index": k, "what": what,
+                       "function": f, "pc": pc, "code": dump_function(&program.functions[f]),
+                       "trace_tail": trace[k.saturating_sub(12)..=*k].to_vec()}),
+                false,
+            );
+            continue;
+        }
+        if let Some((f, pc, first, now, k)) = tc.misaligned {
+            ev.violation(
+                "run kind=misaligned-local path=system",
+                &format!("{} ({who}): the Store at f{f} pc{pc} binds local slot {first} on one execution and slot {now} on another", src.origin),
+                json!({"origin": src.origin, "source": src.text, "lines": lines, "function": f, "pc": pc, "trace_index": k}),
+                true,
+            );
+        }
+        let reqs: Vec<String> = tc.steps.keys().cloned().collect();
+        let answers = cx.model.ask_all(&reqs);
+        ev.add("steps-replayed-in-model", reqs.len() as u64);
+        for (req, ans) in reqs.iter().zip(answers.iter()) {
+            let expect = &tc.steps[req];
+            let mut it = req.split_whitespace().skip(1);
+            if let (Some(Ok(rf)), Some(Ok(rpc))) = (it.next().map(|x| x.parse::<usize>()), it.next().map(|x| x.parse::<usize>())) {
+                ev.hit(&format!("step-op:{}", instr_token(&program.functions[rf].instructions[rpc]).split(':').next().unwrap()));
+            }
+            if ans != expect {
+                ev.violation(
+                    "step kind=stepInstr-differs path=system",
+                    &format!("{} (full system): executor step corresponds to `{expect}` but the model's stepInstr answers `{ans}` to `{req}`", src.origin),
+                    json!({"broken": "correspondence stepInstr <-> executor handler (per-step shape replay, full system)",
+                           "origin": src.origin, "source": src.text, "lines": lines, "request": req, "model": ans, "executor": expect}),
+                    false,
+                );
+                break;
+            }
+        }
+    }
+    if let Some(class) = run.outcome.strip_prefix("error:") {
+        if is_structural(class) {
+            ev.violation(&format!("run kind=structural-error class={class} path=system"),
+                &format!("{} ends in the structural error {class} in the full system", src.origin),
+                json!({"origin": src.origin, "source": src.text, "lines": lines, "error": class}), true);
+        }
+    }
+}
+
 /// Certify + trace one source in all packagings. Returns false if the source does not compile.
 fn process_source(cx: &mut Ctx, ev: &mut Ev, src: &Source, rng: &mut Rng, run_it: bool) -> bool {
     let unit: Unit = match compile_source(&src.text, &HashMap::new(), &cx.b) {
@@ -255,77 +376,7 @@ fn process_source(cx: &mut Ctx, ev: &mut Ev, src: &Source, rng: &mut Rng, run_it
     // full-system tie for programs with process instructions: REPL line in a real Environment +
     // Worker (deterministic simulator), instruction trace per process
     if run_it && as_compiled_ok && has_process_ops(&bc) {
-        match run_system_traced(&src.text, &cx.b, 1500) {
-            Err(why) => ev.hit(&format!("system-run:skipped:{}", why.split(':').next().unwrap_or("?"))),
-            Ok(run) => {
-                ev.hit(&format!("system-run:{}", run.outcome.split(':').next().unwrap_or("?")));
-                if run.unattributed > 0 {
-                    ev.add("system-run:unattributed-segments", run.unattributed as u64);
-                }
-                let t = tables_of(&run.program);
-                let c = certify(&mut cx.model, &t);
-                ev.add("certified-functions:repl-merged", c.functions as u64);
-                cx.functions += c.functions as u64;
-                if c.reject.is_some() {
-                    report_reject(ev, src, "repl-merged", &t, &c);
-                } else if let Some(anns) = parse_anns(&cx.model.ask("(annotations)")) {
-                    ev.add("system-run:processes", run.traces.len() as u64);
-                    for (pid, trace) in &run.traces {
-                        let tc = check_trace(&run.program.functions, &anns, trace);
-                        cx.trace_points += tc.points as u64;
-                        ev.add("trace-points:system", tc.points as u64);
-                        ev.add("system-run:select-filter-calls", tc.select_filter_calls as u64);
-                        for (f, pc, _, _) in trace.iter() {
-                            if let Some(i) = run.program.functions.get(*f).and_then(|x| x.instructions.get(*pc)) {
-                                if matches!(i, Instruction::Spawn | Instruction::Send | Instruction::Select | Instruction::Self_ | Instruction::Process(_, _)) {
-                                    ev.hit(&format!("system-traced-op:{}", instr_token(i).split(':').next().unwrap()));
-                                }
-                            }
-                        }
-                        if let Some((k, what)) = &tc.mismatch {
-                            let (f, pc, _, _) = trace[*k];
-                            ev.violation(
-                                "trace kind=shape-mismatch path=system",
-                                &format!("full-system trace of process {pid} leaves the annotated shape in {}: {what}", src.origin),
-                                json!({"broken": "correspondence M-VM/M-Check <-> executor (full system, per-process instruction trace)",
-                                       "origin": src.origin, "source": src.text, "process": pid, "trace_index": k, "what": what,
-                                       "function": f, "pc": pc, "code": dump_function(&run.program.functions[f]),
-                                       "trace_tail": trace[k.saturating_sub(12)..=*k].to_vec()}),
-                                false,
-                            );
-                            continue;
-                        }
-                        let reqs: Vec<String> = tc.steps.keys().cloned().collect();
-                        let answers = cx.model.ask_all(&reqs);
-                        ev.add("steps-replayed-in-model", reqs.len() as u64);
-                        for (req, ans) in reqs.iter().zip(answers.iter()) {
-                            let expect = &tc.steps[req];
-                            let mut it = req.split_whitespace().skip(1);
-                            if let (Some(Ok(rf)), Some(Ok(rpc))) = (it.next().map(|x| x.parse::<usize>()), it.next().map(|x| x.parse::<usize>())) {
-                                ev.hit(&format!("step-op:{}", instr_token(&run.program.functions[rf].instructions[rpc]).split(':').next().unwrap()));
-                            }
-                            if ans != expect {
-                                ev.violation(
-                                    "step kind=stepInstr-differs path=system",
-                                    &format!("{} (full system): executor step corresponds to `{expect}` but the model's stepInstr answers `{ans}` to `{req}`", src.origin),
-                                    json!({"broken": "correspondence stepInstr <-> executor handler (per-step shape replay, full system)",
-                                           "origin": src.origin, "source": src.text, "request": req, "model": ans, "executor": expect}),
-                                    false,
-                                );
-                                break;
-                            }
-                        }
-                    }
-                    if let Some(class) = run.outcome.strip_prefix("error:") {
-                        if is_structural(class) {
-                            ev.violation(&format!("run kind=structural-error class={class} path=system"),
-                                &format!("{} ends in the structural error {class} in the full system", src.origin),
-                                json!({"origin": src.origin, "source": src.text, "error": class}), true);
-                        }
-                    }
-                }
-            }
-        }
+        system_tie(cx, ev, src, &[src.text.clone()]);
     }
 
     // (b) tree-shaken from the wrapper entry
@@ -501,6 +552,18 @@ fn main() {
         ev.case(&src.text, ok);
         ev.sample_sparse(i, 150, || json!({"origin": src.origin, "accepted": ok, "source": src.text}));
     }
+    // REPL sessions: several lines on the persistent process (continuation lines start with the
+    // session's variables as locals; `@N` process references; programs merged one after the other)
+    let n_sessions = opts.tier.pick(120u64, 2500u64);
+    for i in 0..n_sessions {
+        let mut r = Rng::for_case(opts.seed ^ 0x5E55, i);
+        let lines = cgen::session(&mut r, &mut ev);
+        let src = Source { origin: format!("session#{i}"), text: lines.join("\n") };
+        system_tie(&mut cx, &mut ev, &src, &lines);
+        ev.case(&src.text, true);
+        ev.sample_sparse(i, 60, || json!({"origin": src.origin, "lines": lines}));
+    }
+    ev.set_extra("repl_sessions", json!(n_sessions));
     ev.set_extra("generated", json!(n_gen));
     ev.set_extra("generated_accepted", json!(gen_accepted));
     ev.set_extra("programs", json!(cx.programs));
